@@ -4,7 +4,11 @@ Every case builds one set of samples and one query set and runs the REAL Interp1
 construction / at call, with few (numel(xq) <= numel(x)) and many (numel(xq) > numel(x)) queries, which select the
 two internal evaluation formulas - with y and xq requiring grad.  Values, the gradient w.r.t. y and the gradient
 w.r.t. xq are compared with scipy.interpolate.CubicSpline / numpy.interp on the sorted data (interpolation matrix
-rows, spline derivative / segment slope), the extrapolated entries with the documented rule of the mode."""
+rows, spline derivative / segment slope), the extrapolated entries with the documented rule of the mode.
+
+Group manyq runs the same four evaluations and oracles with a very large query set (128 to 65537 points; counts at and next to
+powers of two, primes, round and random numbers) in place of the "many" set - its mechanism keys carry the size name "vmany"."""
+import math
 import random
 
 import numpy as np
@@ -21,15 +25,18 @@ LEVEL_TEXT = ("Held on every generated case of the run: methods {linear, cspline
               "periodic} x extrapolation {default, nan, float, int, 0-d / 1-element tensor, callable, bound, mirror, periodic, none "
               "needed} x grids (uniform/random/clustered/graded, 3-40 knots; sorted, assumed sorted, shuffled, reversed) x query "
               "sets (knots, range ends, inside, outside up to 2.6 ranges away; shuffled; 1..3nx points) x y batch shapes x "
-              "float64/float32, each evaluated through both internal formulas and with y at construction and at call.")
+              "float64/float32, each evaluated through both internal formulas and with y at construction and at call; plus query sets "
+              "of 128 to 65537 points (powers of two and their neighbours, primes, round and random counts) over the same table.")
 LEVEL_NOTE = ("Trusts scipy.interpolate.CubicSpline and numpy.interp; tolerances 2000*eps*G*(max|y| + max|slope|*hmax) (see ASSUMPTIONS), >= 200x "
               "the largest error seen on the repaired tree over seeds 0-3; sample positions never require grad; x and xq are 1-D.")
 RULE = ("cases = seeded samples over method x bc_type x extrapolation mode x grid kind x nx in [3,40] x sample order x y batch shape x "
         "dtype x query layout, plus the full (bc, extrap) table on small grids and the nx in {3,4,5} table; non-trivial = samples not "
         "constant, the case really went through BOTH evaluation formulas (counted by a wrapper on _interp) and all four "
         "(route x size) results were compared with the reference (values, d/dy, d/dxq)")
+RULE += ('; group manyq = the same oracles on query sets of 128-65537 points (count classes pow2 / pow2-1 / pow2+1 / prime / round / random, '
+         'count taken on the whole set or on the points reaching the evaluation formula), mechanism keys carry the size name "vmany"')
 RULE += ('; every second extrapolation callable is defined (finite, differentiable) outside the sample range only')
-MIN_NONTRIVIAL = {"quick": 900, "thorough": 9000}
+MIN_NONTRIVIAL = {"quick": 1300, "thorough": 12000}
 ASSUMPTIONS = ["sample positions distinct, 1-D, never requiring grad; x in [-3, 6], range 0.5-4; adjacent spacing ratio <= e^3, max/min spacing <= 1e3",
                "queries 1-D; outside queries lie within 2.6 ranges of the sample range and keep a normalised distance >= 0.02 from every "
                "integer multiple of the range (away from the kinks of the mirror image / the wrap of the periodic image)",
@@ -38,14 +45,23 @@ ASSUMPTIONS = ["sample positions distinct, 1-D, never requiring grad; x in [-3, 
                "value tolerance 2000*eps*G*(max|y| + max|slope|*hmax), G = adjacent spacing ratio (incl. last/first for periodic); for outside "
                "queries mapped into the range (mirror/periodic/bound) hmax is replaced by hmax+max|x|+max|xq| (rounding of the mapped position); "
                "d/dxq tolerance 2000*eps*G*max|slope|*hmax/hmin (mapped: (hmax+max|x|+max|xq|)/hmin); float32 uses eps32; matrix / d/dy tolerance 2000*eps*G*max|M|*(1+hmax/hmin) (basis functions have slopes ~ 1/hmin)",
-               "d/dxq of the piecewise-linear interpolant is not compared at queries that coincide with a knot (one-sided there)"]
+               "d/dxq of the piecewise-linear interpolant is not compared at queries that coincide with a knot (one-sided there), nor at outside "
+               "queries whose mirror / periodic image lies within 4*eps*(max|x|+max|xq|) of a knot (the rounding of the image decides the side)",
+               "group manyq: 128 to 65537 query points (2^k, 2^k-1, 2^k+1 for k in 7..16, primes, round numbers, log-uniform random), of which 1-30 % "
+               "outside when the mode extrapolates; the count is that of the whole query set or of the points that reach the evaluation formula"]
 BUDGET = {"quick": {"worker_timeout": 600, "case_timeout": 60}, "thorough": {"worker_timeout": 2400, "case_timeout": 60}}
 _RC = {"cspline_formula_few": 300, "cspline_formula_many": 300, "linear_formula_few": 100, "linear_formula_many": 100,
        "extrap_pos_calls": 150, "extrap_val_calls": 150, "late_y_resorted": 150, "spline_mat_built": 600,
        "grad_y_compared": 900, "grad_xq_compared": 900, "knot_queries": 2000, "outside_queries": 2000,
        "bc_not-a-knot": 60, "bc_natural": 60, "bc_clamped": 60, "bc_periodic": 60, "bc_default": 60,
        "extrap_mode_mirror": 60, "extrap_mode_periodic": 60, "extrap_mode_bound": 40, "extrap_mode_nan": 60,
-       "extrap_mode_callable": 30, "extrap_callable_defined_outside_only": 10, "extrap_mode_const": 60, "batched_y_cases": 300}
+       "extrap_mode_callable": 30, "extrap_callable_defined_outside_only": 10, "extrap_mode_const": 60, "batched_y_cases": 300,
+       # group manyq (128 .. 65537 query points)
+       "manyq_cases": 400, "manyq_vmany_sets_compared": 800, "manyq_queries": 2000000, "manyq_points_through_formula": 5000000,
+       "manyq_class_pow2": 30, "manyq_class_pow2m1": 30, "manyq_class_pow2p1": 30, "manyq_class_prime": 30, "manyq_class_round": 30,
+       "manyq_class_random": 30, "manyq_nq_upto_1k": 40, "manyq_nq_1k_4k": 40, "manyq_nq_4k_16k": 40, "manyq_nq_over_16k": 40,
+       "manyq_method_linear": 80, "manyq_method_cspline": 250, "manyq_batched_y": 200, "manyq_extrap_mirror": 20,
+       "manyq_extrap_periodic": 20, "manyq_extrap_bound": 20, "manyq_extrap_nan": 20, "manyq_extrap_callable": 20, "manyq_extrap_const": 80}
 REQUIRED_COUNTERS = {"quick": dict(_RC), "thorough": {k: 8 * v for k, v in _RC.items()}}
 
 BCS = ["default", "not-a-knot", "natural", "clamped", "periodic"]
@@ -97,7 +113,35 @@ def cases(seed, tier):
         shapes = [list(rng.choice(pool)) for _ in range(rng.choice([2, 3, 4, 5]))]
         out.append({"group": "reuse", "seed": sub_seed(seed, "c14res", i), "method": ["cspline", "linear"][i % 2], "nx": rng.choice([4, 6, 9]),
                     "nq": rng.choice([3, 12]), "shuffled": i % 4 != 3, "shapes": shapes})
+    # ---- very many query points: counts at / next to powers of two, primes, round numbers, random (128 .. 65537), so that any
+    # internal threshold on the number of queries (blocking, chunking, switching of formulas) is crossed with a remainder
+    nmq = 440 if tier == "quick" else 2200
+    for i in range(nmq):
+        rng = random.Random(sub_seed(seed, "c14mq", i))
+        d = {"group": "manyq", "seed": sub_seed(seed, "c14mqs", i)}
+        d["method"] = "linear" if i % 4 == 0 else "cspline"
+        d["bc"] = rng.choice(BCS) if d["method"] == "cspline" else "-"
+        d["extrap"] = EXTRAPS[i % len(EXTRAPS)]
+        d["nx"] = rng.choice([3, 4, 5, 6, 7, 8, 9, 10, 12, 13, 16, 21, 30, 40])
+        d["grid"] = rng.choice(ir.GRID_KINDS)
+        d["order"] = rng.choice(ORDERS)
+        d["ybatch"] = rng.choice([0, 1, 2, 2, 3, 4, 5])
+        d["dtype"] = rng.choice(["float64", "float64", "float64", "float32"])
+        d["qlayout"] = rng.choice(["shuffled", "shuffled", "sorted", "strided"])
+        d["nqclass"] = cls = rng.choice(NQ_CLASSES)
+        k = rng.randrange(7, 17)
+        d["nq"] = {"pow2": 2 ** k, "pow2m1": 2 ** k - 1, "pow2p1": 2 ** k + 1, "prime": rng.choice(NQ_PRIMES),
+                   "round": rng.choice(NQ_ROUND), "random": int(math.exp(rng.uniform(math.log(150.0), math.log(60000.0))))}[cls]
+        # the count applies to the points that reach the evaluation formula ("interp": extrapolated points come on top in the
+        # modes that split the query set) or to the whole query set ("total")
+        d["count_on"] = rng.choice(["interp", "total"])
+        out.append(d)
     return out
+
+
+NQ_CLASSES = ["pow2", "pow2m1", "pow2p1", "prime", "round", "random"]
+NQ_PRIMES = [131, 257, 521, 1009, 2053, 3001, 4099, 5003, 8191, 10007, 12289, 16381, 20011, 32771, 40009, 50021, 65537]
+NQ_ROUND = [200, 500, 1000, 2000, 3000, 5000, 6000, 10000, 12000, 20000, 30000, 50000]
 
 
 # ------------------------------------------------------------------------------------------------------- reference
@@ -172,6 +216,42 @@ def run_reuse(desc):
         obs.count("reuse_calls")
     obs.nontrivial = len(shapes) >= 2
     return obs.result()
+
+
+def _many_queries(desc, rng, nprng, xs, npdt, mapped_mode, allow_out):
+    """query set of the group manyq, [(value, kind)]: desc["nq"] points - knots (both range ends always), midpoints, uniform
+    inside and, when the mode allows, 1-30 % outside (same bounds as the other groups) - in random order"""
+    nx, nq = len(xs), desc["nq"]
+    xmin, xmax = float(xs[0]), float(xs[-1])
+    L = xmax - xmin
+    n_out = 0
+    if allow_out:
+        n_out = max(1, int(nq * rng.uniform(0.01, 0.3)))
+    # which count is the generated one: the points that go through the evaluation formula, or the whole query set
+    n_in = nq if (desc["count_on"] == "interp" and not mapped_mode) or n_out == 0 else nq - n_out
+    n_knot = min(n_in, 2 + rng.randrange(1, 2 * nx))
+    kn = np.concatenate([[0, nx - 1], nprng.integers(0, nx, n_knot)])[:n_knot]
+    vals = [xs[kn]]
+    n_mid = (n_in - n_knot) // 4
+    j = nprng.integers(0, nx - 1, n_mid)
+    vals.append(0.5 * (xs[j] + xs[j + 1]))
+    vals.append(nprng.uniform(xmin, xmax, n_in - n_knot - n_mid))
+    vin = np.concatenate(vals).astype(npdt).astype(np.float64)
+    if len(vin) != n_in or not np.all((vin >= xmin) & (vin <= xmax)):
+        raise HarnessBug("manyq: inside queries left the range")
+    kin = np.where(np.isin(vin, xs), "knot", "in")
+    vout = np.zeros(0)
+    while len(vout) < n_out:
+        u = nprng.uniform(-2.6, 3.6, 2 * (n_out - len(vout)) + 8)
+        u = u[~((u >= 0.0) & (u <= 1.0)) & (np.abs(u - np.round(u)) >= 0.02)]
+        v = (xmin + u * L).astype(npdt).astype(np.float64)
+        un = (v - xmin) / L
+        v = v[~((v >= xmin) & (v <= xmax)) & (np.abs(un - np.round(un)) >= 0.015)]
+        vout = np.concatenate([vout, v])[:n_out]
+    allv = np.concatenate([vin, vout])
+    allk = np.concatenate([kin, np.full(len(vout), "out")])
+    p = nprng.permutation(len(allv))
+    return list(zip(allv[p].tolist(), allk[p].tolist()))
 
 
 def run_case(desc):
@@ -257,9 +337,13 @@ def run_case(desc):
 
     # ---------------------------------------------------------------- queries
     allow_out = exmode != "inside"
-    n_in_many = nx + 1 + rng.randrange(0, 2 * nx)
-    qs = []        # (value, kind)
-    knot_ids = [0, nx - 1] + [rng.randrange(nx) for _ in range(max(1, n_in_many // 4))]
+    manyq = desc["group"] == "manyq"
+    big = "vmany" if manyq else "many"          # name of the larger query set in the mechanism keys
+    if manyq:
+        qs = _many_queries(desc, rng, nprng, xs, npdt, allow_out and eff in ("mirror", "periodic", "bound"), allow_out)
+    n_in_many = 0 if manyq else nx + 1 + rng.randrange(0, 2 * nx)
+    qs = qs if manyq else []        # (value, kind)
+    knot_ids = [] if manyq else [0, nx - 1] + [rng.randrange(nx) for _ in range(max(1, n_in_many // 4))]
     for j in knot_ids:
         qs.append((float(xs[j]), "knot"))
     while len(qs) < n_in_many:
@@ -272,7 +356,7 @@ def run_case(desc):
         if xmin <= v <= xmax:
             qs.append((v, "knot" if v in xs else "in"))
     n_out = 0
-    if allow_out:
+    if allow_out and not manyq:
         n_out = rng.randrange(1, 2 + nx // 2)
         while n_out > 0:
             u = rng.uniform(-2.6, 3.6)
@@ -284,7 +368,8 @@ def run_case(desc):
                 continue
             qs.append((v, "out"))
             n_out -= 1
-    rng.shuffle(qs)
+    if not manyq:                                   # (the manyq generator returns a random order)
+        rng.shuffle(qs)
     # the few set: a subset with at most nx points which keeps an outside point and a knot when there are any
     nfew = rng.randrange(1, nx + 1)
     first_out = next((i for i, q in enumerate(qs) if q[1] == "out"), None)
@@ -304,7 +389,7 @@ def run_case(desc):
         few_idx = sorted(rng.sample(range(len(qs)), len(few_idx)))
     xq_many = np.array([q[0] for q in qs], dtype=np.float64)
     kinds_many = np.array([q[1] for q in qs])
-    sets = {"many": (xq_many, kinds_many, np.arange(len(qs))),
+    sets = {big: (xq_many, kinds_many, np.arange(len(qs))),
             "few": (xq_many[few_idx], kinds_many[few_idx], np.array(few_idx))}
     xabs = float(np.abs(xs).max() + np.abs(xq_many).max())
 
@@ -374,18 +459,26 @@ def run_case(desc):
             m[..., out] = np.nan
         if method == "linear":
             atknot = np.isin(pos, xs)
+            if out.any() and eff in ("mirror", "periodic"):
+                # an outside query is mapped into the range with a rounding of eps*(|x|+|xq|): within that distance of a knot the
+                # segment (hence the one-sided slope) it lands on is decided by the rounding (seen up to 0.28 of that in float32)
+                near = np.zeros(nq, dtype=bool)
+                near[out] = np.abs(pos[out][:, None] - xs[None, :]).min(axis=1) <= 4.0 * eps * xabs
+                atknot = atknot | near
             d[..., atknot & (sgn != 0.0)] = np.nan
         mapped = out & (eff in ("mirror", "periodic", "bound"))
         return v, d, m, mapped
 
     # ---------------------------------------------------------------- reach counters (restored in finally)
-    reach = {"few": 0, "many": 0, "pos": 0, "val": 0, "mat": 0}
+    reach = {"few": 0, "many": 0, "pos": 0, "val": 0, "mat": 0, "bigpts": 0}
     o_cs, o_li = imod.CubicSpline1D._interp, imod.LinearInterp1D._interp
     o_pos, o_val, o_mat = imod.get_extrap_pos, imod.get_extrap_val, imod._get_spline_mat_inv
 
     def wrap_interp(orig):
         def _interp(self, xq, y):
             reach["many" if xq.numel() > self.x.numel() else "few"] += 1
+            if xq.numel() > 3 * 40 + 1:
+                reach["bigpts"] += xq.numel()
             return orig(self, xq, y)
         return _interp
 
@@ -397,6 +490,7 @@ def run_case(desc):
 
     mtag = "linear" if method == "linear" else "cspline:%s" % bc
     ntag = "n3" if nx == 3 else "n4+"
+    btag = ":vmany" if manyq else ""
     results = {}
     compared = 0
     failed = False
@@ -406,7 +500,7 @@ def run_case(desc):
     imod.get_extrap_val = counting(o_val, "val")
     imod._get_spline_mat_inv = counting(o_mat, "mat")
     try:
-        for size in ("few", "many"):
+        for size in ("few", big):
             xq_np, kinds, _ = sets[size]
             rv, rd, rm, mapped = reference(xq_np, kinds)
             tolv_q = np.where(mapped, tol_map, tol_in)
@@ -463,8 +557,10 @@ def run_case(desc):
                 r_out = float((err / tolv_q)[..., ~inside].max()) if (~inside).any() else 0.0
                 e_out = float(err[..., ~inside].max()) if (~inside).any() else 0.0
                 obs.note(**{"worst_v": max(obs.obs.get("worst_v", 0.0), e_in / tol_v), "worst_vout": max(obs.obs.get("worst_vout", 0.0), r_out)})
+                wrong = np.nonzero(((err > tol_v) & inside).reshape(-1, len(xq_np)).any(axis=0))[0]
                 obs.check(e_in <= tol_v, "value:%s:%s:%s" % (key, desc["order"] if order != "sorted_assumed" else "sorted", ntag),
-                          "interpolated values differ from the reference by %.3e (tolerance %.3e)" % (e_in, tol_v),
+                          "interpolated values differ from the reference by %.3e (tolerance %.3e) at %d of %d query points, first at index %s" % (
+                              e_in, tol_v, len(wrong), len(xq_np), wrong[0] if len(wrong) else "-"),
                           nx=nx, nq=len(xq_np), grid=desc["grid"], ybatch=list(ybatch))
                 if (~inside).any():
                     obs.check(r_out <= 1.0, "extrap_value:%s:%s:%s:%s" % (mtag, eff, route, size),
@@ -520,10 +616,12 @@ def run_case(desc):
                           nx=nx, eff=eff)
                 obs.count("grad_xq_compared")
                 compared += 1
+                if manyq and size == big:
+                    obs.count("manyq_vmany_sets_compared")          # values, d/dy and d/dxq of a very large query set
 
         # ---------------------------------------------------------------- interpolation matrix from the basis vectors
         try:
-            xq_np, kinds, _ = sets["many"]
+            xq_np, kinds, _ = sets[big]
             rv, rd, rm, mapped = reference(xq_np, kinds)
             amp = 1.0 + (st["hmax"] + (xabs if mapped.any() else 0.0)) / st["hmin"]
             tol_lin = tol_map if mapped.any() else tol_in
@@ -533,16 +631,16 @@ def run_case(desc):
                 Mn = M.double().numpy()
                 lin_cols = np.isfinite(rm).all(axis=0)                    # columns where the map y -> yq is linear
                 coef = ys[..., :nb]
-                if ("init", "many") in results and lin_cols.any():
+                if ("init", big) in results and lin_cols.any():
                     via = np.einsum("...b,bq->...q", coef, Mn[:, lin_cols])
-                    e = float(np.abs(via - results[("init", "many")][..., lin_cols]).max())
+                    e = float(np.abs(via - results[("init", big)][..., lin_cols]).max())
                     obs.note(worst_lin=e / tol_lin)
-                    obs.check(e <= tol_lin * max(1.0, nb ** 0.5), "linear_in_y:%s" % mtag,
+                    obs.check(e <= tol_lin * max(1.0, nb ** 0.5), "linear_in_y:%s%s" % (mtag, btag),
                               "interpolating y differs from combining the interpolated unit vectors by %.3e" % e, nx=nx)
                     e = float(np.abs(Mn[:, lin_cols] - rm[:, lin_cols]).max())
                     tol_m = C_TOL * eps * G * amp * max(1.0, float(np.abs(rm[:, lin_cols]).max()))
                     obs.note(worst_m=e / tol_m)
-                    obs.check(e <= tol_m, "matrix:%s" % mtag, "interpolation matrix differs from the reference by %.3e (tolerance %.3e)" % (e, tol_m),
+                    obs.check(e <= tol_m, "matrix:%s%s" % (mtag, btag), "interpolation matrix differs from the reference by %.3e (tolerance %.3e)" % (e, tol_m),
                               nx=nx)
                     obs.count("matrices_compared")
         except Exception as e:
@@ -558,13 +656,13 @@ def run_case(desc):
     # ---------------------------------------------------------------- the four runs agree with each other
     few_idx_arr = sets["few"][2]
     for route in ("init", "call"):
-        if (route, "few") in results and (route, "many") in results:
-            a, b = results[(route, "few")], results[(route, "many")][..., few_idx_arr]
+        if (route, "few") in results and (route, big) in results:
+            a, b = results[(route, "few")], results[(route, big)][..., few_idx_arr]
             both = np.isfinite(a) & np.isfinite(b)
             e = float(np.abs(a - b)[both].max()) if both.any() else 0.0
-            obs.check(e <= tol_map, "formulas_differ:%s:%s" % (mtag, route),
+            obs.check(e <= tol_map, "formulas_differ:%s:%s%s" % (mtag, route, btag),
                       "few-query and many-query evaluations differ by %.3e at the same positions" % e, nx=nx)
-    for size in ("few", "many"):
+    for size in ("few", big):
         if ("init", size) in results and ("call", size) in results:
             a, b = results[("init", size)], results[("call", size)]
             both = np.isfinite(a) & np.isfinite(b)
@@ -585,6 +683,18 @@ def run_case(desc):
     if ybatch:
         obs.count("batched_y_cases")
     obs.count("order_%s" % order)
+    if manyq:
+        nq = len(xq_many)
+        obs.count("manyq_cases")
+        obs.count("manyq_class_%s" % desc["nqclass"])
+        obs.count("manyq_method_%s" % method)
+        obs.count("manyq_queries", nq)
+        obs.count("manyq_points_through_formula", reach["bigpts"])
+        obs.count("manyq_nq_%s" % ("upto_1k" if nq <= 1024 else "1k_4k" if nq <= 4096 else "4k_16k" if nq <= 16384 else "over_16k"))
+        if allow_out:
+            obs.count("manyq_extrap_%s" % eff)
+        if ybatch:
+            obs.count("manyq_batched_y")
     obs.note(tol_v=tol_v, adj_ratio=st["adj_ratio"], nq_many=len(xq_many), nq_few=len(few_idx), eff=eff)
     varied = bool(np.any(ys.max(axis=-1) > ys.min(axis=-1)))
     obs.nontrivial = bool(varied and not failed and compared == 4 and reach["few"] >= 2 and reach["many"] >= 2)
